@@ -133,7 +133,7 @@ class Flow(object):
                     return MergedDict(snames)
                 else:
                     outer_names = set(snames).difference(self.scope.locals)
-                    if self.scope.globals:
+                    if self.scope.globals and self.scope is not self.scope.top:
                         # a name declared global resolves at module level,
                         # whatever the enclosing functions bind
                         tnames = self.scope.top.names
